@@ -597,6 +597,15 @@ func (w *ShelleyTransactionWitnessSet) UnmarshalCBOR(cborData []byte) error {
 	return nil
 }
 
+func (w *ShelleyTransactionWitnessSet) MarshalCBOR() ([]byte, error) {
+	// Return the original CBOR if available so that re-encoding a decoded
+	// object reproduces the exact bytes it was decoded from
+	if w.Cbor() != nil {
+		return w.Cbor(), nil
+	}
+	return cbor.EncodeGeneric(w)
+}
+
 func (w ShelleyTransactionWitnessSet) Vkey() []common.VkeyWitness {
 	return w.VkeyWitnesses
 }
